@@ -508,6 +508,43 @@ impl Exec {
         let _ = catch_unwind(AssertUnwindSafe(|| self.cache.shutdown()));
         verif::install(None);
     }
+
+    /// C13, sequential part: after shutdown() returned every write entry point returns Err and every read variant
+    /// returns absent / empty; a second shutdown() returns as well.
+    pub fn shutdown_and_check(&mut self) -> Check {
+        self.inst.worker_gate.open();
+        self.inst.sweeper_gate.open();
+        self.call("shutdown", |cache| cache.shutdown())?;
+        self.call("shutdown (second call)", |cache| cache.shutdown())?;
+        let keys: Vec<u64> = self.written_keys.iter().map(|k| *k as u64).chain(std::iter::once(200)).collect();
+        for key in keys {
+            let results: Vec<(&str, bool)> = vec![
+                ("put", self.call("put", |cache| cache.put(key, 1).is_err())?),
+                ("put_with_weight", self.call("put_with_weight", |cache| cache.put_with_weight(key, 1, 1).is_err())?),
+                ("put_with_ttl", self.call("put_with_ttl", |cache| cache.put_with_ttl(key, 1, Duration::from_secs(1)).is_err())?),
+                ("put_with_weight_and_ttl", self.call("put_with_weight_and_ttl", |cache| cache.put_with_weight_and_ttl(key, 1, 1, Duration::from_secs(1)).is_err())?),
+                ("put_or_update", self.call("put_or_update", |cache| cache.put_or_update(PutOrUpdateRequestBuilder::new(key).value(1).build()).is_err())?),
+                ("delete", self.call("delete", |cache| cache.delete(key).is_err())?),
+            ];
+            for (name, is_err) in results {
+                ensure!(is_err, "C13", "C13/seq/write-accepted-after-shutdown", "{}({}) returned Ok after shutdown() had returned", name, key);
+            }
+            let reads: Vec<(&str, bool)> = vec![
+                ("get", self.call("get", |cache| cache.get(&key).is_none())?),
+                ("get_ref", self.call("get_ref", |cache| cache.get_ref(&key).is_none())?),
+                ("map_get", self.call("map_get", |cache| cache.map_get(&key, |value| value).is_none())?),
+                ("map_get_ref", self.call("map_get_ref", |cache| cache.map_get_ref(&key, |stored| stored.value()).is_none())?),
+                ("multi_get", self.call("multi_get", |cache| cache.multi_get(vec![&key]).values().all(|value| value.is_none()))?),
+                ("multi_get_iterator", self.call("multi_get_iterator", |cache| cache.multi_get_iterator(vec![&key]).all(|value| value.is_none()))?),
+                ("multi_get_map_iterator", self.call("multi_get_map_iterator", |cache| cache.multi_get_map_iterator(vec![&key], |value| value).all(|value| value.is_none()))?),
+            ];
+            for (name, absent) in reads {
+                ensure!(absent, "C13", "C13/seq/read-after-shutdown", "{}({}) returned a value after shutdown() had returned", name, key);
+            }
+        }
+        verif::install(None);
+        Ok(())
+    }
 }
 
 #[derive(Clone, Debug)]
@@ -552,6 +589,10 @@ fn run_seq_case_inner(case: &SeqCase, policy: &Policy, focus: &str) -> SeqOutcom
         }
     }
     if failure.is_none() { failure = exec.deferred.take(); }
+    if failure.is_none() && (focus == "C13" || focus.is_empty()) {
+        // C13, sequential part (no drain before: keys are still held when shutdown is called)
+        if let Err(mut error) = exec.shutdown_and_check() { error.at_op = case.ops.len() + 1; failure = Some(error); }
+    }
     exec.shutdown();
     let stats = exec.stats.clone();
     drop(exec);
